@@ -430,6 +430,41 @@ Proof.
         intros en [<-|[]] Ha. rewrite (Hre _ _ Ha Hc) in Hn. discriminate.
 Qed.
 
+(* L8 for a group of tiles (meta tile path): tiles that are all accepted stay accepted and none of them is covered by
+   an upstream request of the loop, provided the re-check of every work item of the loop that covers one of them
+   answers "nothing to do" while all of them are accepted *)
+Lemma loop_group_untouched : forall grp ws,
+  (forall c w, In w ws -> (exists x, In x grp /\ In x (cover w)) ->
+               (forall x, In x grp -> cachedb c x = Some true) -> needs c w = Some true) ->
+  forall s acc, (forall x, In x grp -> cachedb (s_cache s) x = Some true) ->
+  exists new, s_log (final (create_loop f s acc ws)) = new ++ s_log s /\
+              (forall entry, In entry new -> forall x, In x grp -> ~ In x entry) /\
+              (forall x, In x grp -> cachedb (s_cache (final (create_loop f s acc ws))) x = Some true).
+Proof.
+  intros grp. induction ws as [|w r IH]; intros Hre s acc Hc; cbn [create_loop].
+  - exists []. split; [reflexivity|]. split; [intros ? [] | exact Hc].
+  - assert (Hre' : forall c w', In w' r -> (exists x, In x grp /\ In x (cover w')) ->
+                   (forall x, In x grp -> cachedb c x = Some true) -> needs c w' = Some true).
+    { intros c w' Hw'. apply Hre. right. exact Hw'. }
+    assert (Hdisj : needs (s_cache s) w = Some false -> forall x, In x grp -> existsb (addr_eqb x) (cover w) = false).
+    { intros Hn x Hx. destruct (existsb (addr_eqb x) (cover w)) eqn:E; [|reflexivity]. apply existsb_addr_In in E.
+      rewrite (Hre (s_cache s) w (or_introl eq_refl) (ex_intro _ x (conj Hx E)) Hc) in Hn. discriminate. }
+    pose proof (Hspec s w) as H. destruct (f s w) as [s1 cr|s1 e].
+    + destruct H as [[-> _] | [Hn [Hlog Hcache]]].
+      * exact (IH Hre' s _ Hc).
+      * assert (Hc1 : forall x, In x grp -> cachedb (s_cache s1) x = Some true).
+        { intros x Hx. destruct Hcache as [->|[_ ->]]; [exact (Hc x Hx)|]. rewrite <- (Hc x Hx).
+          apply is_cached_ext. apply get_store_tiles_notin. exact (Hdisj Hn x Hx). }
+        destruct (IH Hre' s1 (rev cr ++ acc) Hc1) as [new [Hl [Hno Hfin]]].
+        exists (new ++ [cover w]). rewrite Hl, Hlog, <- app_assoc. split; [reflexivity|]. split; [|exact Hfin].
+        intros en He x Hx Ha. apply in_app_or in He. destruct He as [He|[<-|[]]]; [exact (Hno en He x Hx Ha)|].
+        apply existsb_addr_In in Ha. rewrite (Hdisj Hn x Hx) in Ha. discriminate.
+    + cbn [final]. destruct H as [[-> _] | [Hn [Hlog [Hcache _]]]].
+      * exists []. split; [reflexivity|]. split; [intros ? [] | exact Hc].
+      * exists [cover w]. rewrite Hlog. split; [reflexivity|]. split; [|rewrite Hcache; exact Hc].
+        intros en [<-|[]] x Hx Ha. apply existsb_addr_In in Ha. rewrite (Hdisj Hn x Hx) in Ha. discriminate.
+Qed.
+
 End Loop.
 End Request.
 
@@ -822,6 +857,38 @@ Proof.
   cbv zeta. rewrite Hm. fold s1.
   apply (loop_fresh_untouched Q m ev sc _ _ cover1 _ (single_v_spec Q m ev sc (s_cache s0)) a); [|exact Hc].
   intros c w [<-|[]] Hcw. exact Hcw.
+Qed.
+
+Lemma all_cached_complete : forall c mt,
+  (forall x, In x mt -> cachedb c x = Some true) -> all_cached Q m ev c mt = Some true.
+Proof.
+  intros c. induction mt as [|b r IH]; intros H; cbn [all_cached]; [reflexivity|].
+  rewrite (H b (or_introl eq_refl)). apply IH. intros x Hx. apply H. right. exact Hx.
+Qed.
+
+(* the same on the meta tile path: when the other request left every tile of the meta tile of `a` accepted, the
+   waiting request - which decided to create that meta tile before - finds under the lock that there is nothing to
+   do: no upstream request of it covers any tile of the meta tile, and all of them stay accepted.  Meta tiles of the
+   requested tiles are taken to be equal or disjoint (they partition the grid). *)
+Lemma recheck_observes_refresh_meta : forall s0 coords other a,
+  m_meta m = true ->
+  (forall b, In b coords -> members b = members a \/ forall x, In x (members b) -> ~ In x (members a)) ->
+  let s1 := fst (load_tile_coords Q m ev sc members s0 other) in
+  let s' := fst (load_after Q m ev sc members s0 coords other) in
+  (forall x, In x (members a) -> cachedb (s_cache s1) x = Some true) ->
+  s' = s0 \/
+  exists new, s_log s' = new ++ s_log s1 /\ (forall entry, In entry new -> forall x, In x (members a) -> ~ In x entry) /\
+              (forall x, In x (members a) -> cachedb (s_cache s') x = Some true).
+Proof.
+  intros s0 coords other a Hm Hpart s1 s' Hc. subst s'.
+  destruct (load_after_final s0 coords other) as [->|[u [us [Hu ->]]]]; [left; reflexivity|]. right.
+  cbv zeta. rewrite Hm. fold s1.
+  apply (loop_group_untouched Q m ev sc _ _ coverm _ (meta_spec Q m ev sc) (members a)); [|exact Hc].
+  intros c w Hw [x [Hx Hxw]] Hall. unfold coverm in Hxw.
+  apply dedupe_sub in Hw. apply in_map_iff in Hw. destruct Hw as [b [<- Hb]].
+  apply (uncached_spec _ _ _ Hu) in Hb. destruct Hb as [Hb _].
+  destruct (Hpart b Hb) as [->|Hd]; [apply all_cached_complete; exact Hall|].
+  exfalso. exact (Hd x Hxw Hx).
 Qed.
 
 (* single-tile path, upstream down: every requested tile that exists is served with its old content *)
@@ -1452,6 +1519,91 @@ Proof.
                       (w_env w) sc members (w_st w) skip mains) as [[s' handed] ok] eqn:Hw.
   inversion H; subst. cbn [w_mgr w_env w_st]. split; [reflexivity|]. exists handed, ok. split; reflexivity.
 Qed.
+
+(* a seed step changes nothing of the manager but _expire_timestamp, and nothing of the environment *)
+Lemma seed_step_mgr : forall Q sc members w refresh skip mains,
+  w_mgr (fst (step_event Q sc members w (ESeed refresh skip mains))) =
+    match refresh with
+    | Some t => mkMgr (m_refresh_before (w_mgr w)) (Some t) (m_meta (w_mgr w)) (m_floor_store (w_mgr w))
+                      (m_filter (w_mgr w)) (m_link (w_mgr w))
+    | None => w_mgr w
+    end /\
+  w_env (fst (step_event Q sc members w (ESeed refresh skip mains))) = w_env w.
+Proof.
+  intros Q sc members w refresh skip mains. destruct refresh as [t|]; cbn [step_event];
+    match goal with |- context [seed_walk ?a ?b ?c ?d ?e ?f ?g ?h] =>
+      destruct (seed_walk a b c d e f g h) as [[s' hd] ok] end;
+    cbn [fst w_mgr w_env]; split; reflexivity.
+Qed.
+
+(* two seed tasks one after the other on the same TileManager (seed.yaml with two seeds of one cache): the second walk
+   runs under its own threshold t2 - not under t1 that the first task left in _expire_timestamp - on the cache the
+   first task left *)
+Lemma seed_tasks_in_sequence : forall Q sc members w t1 skip1 mains1 t2 skip2 mains2 w2 obs,
+  m_refresh_before (w_mgr w) = None ->
+  run Q sc members w [ESeed (Some t1) skip1 mains1; ESeed (Some t2) skip2 mains2] = (w2, obs) ->
+  exists s1 h1 ok1 h2 ok2,
+    obs = [OSeed h1 ok1; OSeed h2 ok2] /\
+    seed_walk Q (mkMgr None (Some t1) (m_meta (w_mgr w)) (m_floor_store (w_mgr w)) (m_filter (w_mgr w)) (m_link (w_mgr w)))
+              (w_env w) sc members (w_st w) skip1 mains1 = (s1, h1, ok1) /\
+    seed_walk Q (mkMgr None (Some t2) (m_meta (w_mgr w)) (m_floor_store (w_mgr w)) (m_filter (w_mgr w)) (m_link (w_mgr w)))
+              (w_env w) sc members s1 skip2 mains2 = (w_st w2, h2, ok2) /\
+    expire_timestamp Q (w_mgr w2) (w_env w2) = ThrAt t2.
+Proof.
+  intros Q sc members w t1 skip1 mains1 t2 skip2 mains2 w2 obs Hrb H.
+  cbn [run] in H.
+  destruct (step_event Q sc members w (ESeed (Some t1) skip1 mains1)) as [w1 o1] eqn:E1.
+  destruct (step_event Q sc members w1 (ESeed (Some t2) skip2 mains2)) as [w2' o2] eqn:E2.
+  inversion H; subst w2' obs; clear H.
+  destruct (seed_step_mgr Q sc members w (Some t1) skip1 mains1) as [Hm1 He1].
+  rewrite E1 in Hm1, He1. cbn [fst] in Hm1, He1. rewrite Hrb in Hm1.
+  destruct (seed_task_own_threshold Q sc members w t1 skip1 mains1 w1 o1 Hrb E1) as [_ [h1 [ok1 [Ho1 Hw1]]]].
+  assert (Hrb1 : m_refresh_before (w_mgr w1) = None) by (rewrite Hm1; reflexivity).
+  destruct (seed_task_own_threshold Q sc members w1 t2 skip2 mains2 w2 o2 Hrb1 E2) as [Ht2 [h2 [ok2 [Ho2 Hw2]]]].
+  rewrite Hm1, He1 in Hw2. cbn [m_meta m_floor_store m_filter m_link] in Hw2.
+  exists (w_st w1), h1, ok1, h2, ok2. subst o1 o2. repeat split; assumption.
+Qed.
+
+(* a cache that has its own refresh_before: TileManager.expire_timestamp consults _refresh_before first, so the walk of
+   a seed task on this manager runs under the rule of the cache, not under the threshold of the task *)
+Lemma seed_task_cache_rule_first : forall Q sc members w rc t skip mains w' o,
+  m_refresh_before (w_mgr w) = Some rc ->
+  step_event Q sc members w (ESeed (Some t) skip mains) = (w', o) ->
+  expire_timestamp Q (w_mgr w') (w_env w') = before_timestamp_from_options Q rc (w_env w).
+Proof.
+  intros Q sc members w rc t skip mains w' o Hrb H.
+  destruct (seed_step_mgr Q sc members w (Some t) skip mains) as [Hm He].
+  rewrite H in Hm, He. cbn [fst] in Hm, He. rewrite Hm, He. unfold expire_timestamp. cbn [m_refresh_before].
+  rewrite Hrb. reflexivity.
+Qed.
+
+(* non-vacuity: two tasks (thresholds 4000000008 and 4000000020) over a cache with tiles stamped 4000000000 and
+   4000000012: the first task fetches only the first tile, the second task (own, later threshold) fetches the second *)
+Example ex_seed_tasks_in_sequence :
+  let a := (0, 0, 2) in let b := (1, 0, 2) in
+  let w := mkWorld (mkMgr None None false false 0 false) (mkEnv 4000000040 None)
+                   (mkSt [(a, mkEntry 1 4000000000); (b, mkEntry 2 4000000012)] []) in
+  snd (run 4 (fun k => UOk true false (Z.of_nat k)) (fun x => [x]) w
+           [ESeed (Some 4000000008) false [a; b]; ESeed (Some 4000000020) false [a; b]])
+  = [OSeed [[a]] true; OSeed [[b]] true].
+Proof. vm_compute. reflexivity. Qed.
+
+(* non-vacuity of recheck_observes_refresh_meta: a and b form one meta tile and are stale; the request for a decides to
+   create the meta tile, waits for the lock while the request for b refreshes the meta tile, and then fetches
+   nothing: one upstream request in total, both tiles accepted *)
+Example ex_recheck_meta :
+  let a := (0, 0, 2) in let b := (1, 0, 2) in
+  let m := mkMgr None (Some 4000000008) true false 0 false in
+  let ev := mkEnv 4000000040 None in
+  let sc := fun k => UOk true false (Z.of_nat k) in
+  let members := fun _ : addr => [a; b] in
+  let s0 := mkSt [(a, mkEntry 1 4000000000); (b, mkEntry 2 4000000000)] [] in
+  let s1 := fst (load_tile_coords 4 m ev sc members s0 [b]) in
+  let s' := fst (load_after 4 m ev sc members s0 [a] [b]) in
+  tm_is_cached 4 m ev (s_cache s0) a = Some false /\
+  tm_is_cached 4 m ev (s_cache s1) a = Some true /\ tm_is_cached 4 m ev (s_cache s1) b = Some true /\
+  s_log s1 = [[a; b]] /\ s_log s' = [[a; b]] /\ tm_is_cached 4 m ev (s_cache s') a = Some true.
+Proof. vm_compute. repeat split; reflexivity. Qed.
 
 (* ---- bulk_meta_tiles ------------------------------------------------------------------------------------ *)
 
